@@ -53,10 +53,13 @@ P_Fill(a, b, step, q) ==
          /\ \A k \in 1 .. (Len(q) - 1) : q[k][2] = q[k + 1][1] /\ q[k][2] - q[k][1] = step
          /\ q[Len(q)][1] < b /\ b - q[Len(q)][1] <= step
 
-(* bp_chunked: the chunks, concatenated, are the jobs in their original order *)
-RECURSIVE Flatten(_)
-Flatten(qq) == IF qq = <<>> THEN <<>> ELSE Head(qq) \o Flatten(Tail(qq))
-P_Chunk(jobs, chunks) == Flatten(chunks) = jobs
+(* bp_chunked: the chunks, concatenated, are the jobs in their original order.                     *)
+(* Written with a fold (iterative in TLC) instead of a recursive Flatten: observations from the real *)
+(* code carry hundreds of chunks and deep operator recursion can overflow the JVM stack.             *)
+ChunkOffset(chunks, c) == SumSeqF(SubSeq(chunks, 1, c - 1), LAMBDA ch : Len(ch))
+P_Chunk(jobs, chunks) ==
+    /\ SumSeqF(chunks, LAMBDA ch : Len(ch)) = Len(jobs)
+    /\ \A c \in DOMAIN chunks : \A j \in DOMAIN chunks[c] : chunks[c][j] = jobs[ChunkOffset(chunks, c) + j]
 
 ---------------------------------------------------------------------------------------------------
 (* D-level operators, shaped like the code *)
@@ -66,7 +69,14 @@ RECURSIVE FillFrom(_, _, _)
 FillFrom(s, b, step) == IF s >= b THEN <<>>
                         ELSE IF s + step > b THEN << <<s, b>> >>
                         ELSE << <<s, s + step>> >> \o FillFrom(s + step, b, step)
-FillRange(a, b, step) == FillFrom(a, b, step)
+(* the same sequence in closed form (no recursion: a real tiling has hundreds of bins per gap, and a  *)
+(* recursion that deep can overflow the JVM stack during trace validation); Tiling!Inv_D_Fill checks  *)
+(* FillRange = FillFrom on the whole bounded argument space                                          *)
+FillRange(a, b, step) ==
+    IF b <= a THEN <<>>
+    ELSE LET n == (b - a) \div step                      \* full steps
+             full == [k \in 1 .. n |-> << a + (k - 1) * step, a + k * step >>]
+         IN IF a + n * step < b THEN Append(full, << a + n * step, b >>) ELSE full
 
 (* sorted(): tuples compare lexicographically *)
 IvLess(x, y) == x[1] < y[1] \/ (x[1] = y[1] /\ x[2] < y[2])
